@@ -299,6 +299,16 @@ func c10ReadAll(fx *c10Fixture, dir string, focus []string, allocLimitMB int64, 
 		}
 		res.Viols = append(res.Viols, c10Viol{Outcome: outcome, Path: path, Detail: detail})
 	}
+	hasViol := func(outcome, path string) bool {
+		vmu.Lock()
+		defer vmu.Unlock()
+		for _, v := range res.Viols {
+			if v.Outcome == outcome && v.Path == path {
+				return true
+			}
+		}
+		return false
+	}
 	res.State = -2
 	st, err := c10OpenStore(fx.Store, dir, fx.Mmap)
 	if err != nil {
@@ -515,7 +525,7 @@ func c10ReadAll(fx *c10Fixture, dir string, focus []string, allocLimitMB int64, 
 	})
 	if err != nil {
 		noteErr("GetMany", err)
-	} else {
+	} else if !hasViol("wrong-bytes", "GetMany") { // a chunk delivered under a wrong label is one defect, not two
 		for _, h := range sorted {
 			if _, ok := model[h]; ok && got[h] == 0 {
 				absent("GetMany", h)
